@@ -146,6 +146,7 @@ def generate(rng, hostile=False, regimes=("lf", "crlf", "cr", "mixed"), max_file
         lay.fpats[name] = list(raws)
         lay.occ[name] = occ
         key = name
+        sibling = None
         if rng.random() < rglob and "/" in name:
             # a recursive glob that covers this file and files at other depths (same patterns, texts of their own)
             top, base = name.split("/", 1)[0], os.path.basename(name)
@@ -156,11 +157,19 @@ def generate(rng, hostile=False, regimes=("lf", "crlf", "cr", "mixed"), max_file
                     lay.fpats[sib] = list(raws)
         elif rng.random() < glob and "/" in name:
             key = os.path.dirname(name) + "/*" + os.path.splitext(name)[1]
-        if len(raws) >= 2 and rng.random() < repeat and "**" not in key:
+            # the glob covers a sibling file too (same patterns, a text of its own)
+            sibling = os.path.dirname(name) + "/sibling" + os.path.splitext(name)[1]
+            lay.files[sibling], lay.occ[sibling] = build_text()
+            lay.fpats[sibling] = list(raws)
+        if len(raws) >= 2 and rng.random() < (repeat if sibling is None else 0.5) and "**" not in key:
             # a repeated entry for the same file under another spelling of its path: the loader accumulates the patterns
             k = rng.randrange(1, len(raws))
             lay.entries.append((key, list(raws[:k])))
             lay.entries.append((rng.choice(["./", ""]) + name if key != name else "./" + name, list(raws[k:])))
+            if sibling is not None:
+                # the second entry names ONE file: the sibling stays with the glob's patterns (its text still shows the others - as surrounding text)
+                lay.fpats[sibling] = list(raws[:k])
+                lay.occ[sibling] = [o for o in lay.occ[sibling] if o[3] <= k]
         else:
             lay.entries.append((key, list(raws)))
     if not legacy and rng.random() < cfgformats:
